@@ -218,8 +218,8 @@ pub fn prop() -> Prop {
         describe,
         rule: "generated games (all families) x T in 1..200 (80 % <= 40) x {1, 2..16 threads} x vanilla parameters, plus a second run with a threshold from {NaN, -1, +inf, a bound value b_t of the run, b_t(1 +- 1e-12), 1.5 b_t}; oracle: the returned total bound >= the true total regret of the returned profile (independent best-response oracle) - 1e-9 scale, per-player bounds finite and >= 0, total = max, and a run that stops below r has true regret < r; followed by a hill-climbing search over the input bytes maximising true regret / bound (its maximum is reported). Non-trivial = true regret > 0 and T >= 2; distinct by (tree, T, threads).",
         max_len: 700,
-        cases_quick: 8_000,
-        cases_thorough: 300_000,
+        cases_quick: 40_000,
+        cases_thorough: 600_000,
         assumptions: &["the per-player comparison bound_i >= regret_i is not implied by the theorem and is not asserted; only totals are compared"],
         post: Some(targeted),
         watchdog_s: 120,
